@@ -686,9 +686,12 @@ def utf8(v):
 class RefLoader:
     """Counterpart of tornado.template.DictLoader."""
 
-    def __init__(self, files, autoescape="xhtml_escape", namespace=None, whitespace=None):
+    def __init__(self, files, autoescape="xhtml_escape", namespace=None, whitespace=None, file_autoescape=None):
+        """file_autoescape: {name: function name | None} -- templates constructed with an explicit
+        Template(..., autoescape=...) argument (the template's own setting; the loader's is only the default)."""
         self.files = dict(files)
         self.autoescape = autoescape
+        self.file_autoescape = dict(file_autoescape or {})
         self.namespace = dict(namespace or {})
         self.whitespace = whitespace
         self.cache = {}
@@ -714,7 +717,7 @@ class RefLoader:
             mode = "single"
         else:
             mode = "all"
-        f = File(name, text, self.autoescape, mode)
+        f = File(name, text, self.file_autoescape.get(name, self.autoescape), mode)
         f.tokens = tokenize(name, text)
         _Parser(f).parse_file()
         self.cache[name] = f
